@@ -1,4 +1,4 @@
-(* C10_ctor.v — DCM(rpy=), DCM(euler=), DCM(x=,y=,z=): the SO(3) gate accepts the product and returns it. *)
+(* C10_ctor_xyz.v — DCM(rpy=), DCM(euler=), DCM(x=,y=,z=): the SO(3) gate accepts the product and returns it. *)
 From Coq Require Import Reals List Lra.
 From AhrsLib Require Import Base Rot Atan2.
 From AhrsGen Require Import C10gen_R.
@@ -22,10 +22,5 @@ Ltac gate_leaf :=
 Ltac split_eq_head := repeat match goal with |- (if Req_EM_T ?a ?b then _ else _) = _ => destruct (Req_EM_T a b) as [?E|?N] end.
 Ltac gate_proof := cbv zeta; unfold Rx, Ry, Rz; unfold_rot; split_eq_head; gate_leaf.
 
-Lemma DCM_rpy_spec a b c : C10_DCM_rpy_R a b c = Val (mmul3 (Rz a) (mmul3 (Ry b) (Rx c))).
-Proof. unfold C10_DCM_rpy_R. gate_proof. Qed.
-Lemma DCM_euler_zyx_spec a b c : C10_DCM_euler_zyx_R a b c = Val (mmul3 (Rz a) (mmul3 (Ry b) (Rx c))).
-Proof. unfold C10_DCM_euler_zyx_R. gate_proof. Qed.
 Lemma DCM_xyz_spec a b c : C10_DCM_xyz_R a b c = Val (mmul3 (Rx a) (mmul3 (Ry b) (Rz c))).
 Proof. unfold C10_DCM_xyz_R. gate_proof. Qed.
-
